@@ -41,6 +41,12 @@ def strip_unenforced(doc, _defs_override=None):
                 if not nullable:
                     keep.append(k)   # a missing nullable member deserialises as None: not a represented constraint
             s["required"] = keep
+        if isinstance(s.get("properties"), dict):
+            # an optional member is an Option<T>: serde reads an explicit null as None, so "null where the member's
+            # schema has no null" is not a represented constraint for members that are not required
+            req_ = set(s.get("required") or [])
+            s["properties"] = {k: (ps if k in req_ or ps is True or ps == {} else {"anyOf": [ps, {"type": "null"}]})
+                               for k, ps in s["properties"].items()}
         return s
 
     out = oracle.map_schema(copy.deepcopy(doc), f)
